@@ -22,6 +22,21 @@ CHECKS = {
    text="Seeded histories (committed and rolled-back transactions, batches) split at arbitrary points by 1-6 clean close/reopen cycles with a different DBConfig each time; contents after every reopen must equal the model."),
 }
 
+E2_NOTE = ("Fault enumeration is inside each sampled history: every prefix of the file mutations the engine issued is materialised as an on-disk image and recovered with the real Database::open; histories themselves are sampled by seed. "
+           "Disk model = the property's: writes are atomic, durable and ordered as issued (no torn pages, no reordering of un-fsynced writes, no I/O errors). Trusted base: the I/O tap in DBFile (hook H1), the image builder, the reference model. "
+           "Fault-space guards of open findings (crash points inside a checkpoint's page-write window; nested points after recovery's log truncation) are counted in the evidence, not judged.")
+CHECKS.update({
+ "C01": dict(engine="E2-crashsim", level="fault_enumeration", ref="4 (C01), 2.3 (E2)", note=E2_NOTE,
+   technique="deterministic simulation with crash-fault enumeration: I/O tap records every file mutation of a seeded history; every prefix is rebuilt as a disk image, recovered by the real engine and compared with the acknowledged state of a reference model",
+   text="For each seeded history (DDL, autocommit statements, sessions, batches, checkpoints, reopen) EVERY crash point - every prefix of the recorded writes/truncations - is recovered and must contain all acknowledged commits. Exhaustive over crash points within a history, sampled over histories."),
+ "C02": dict(engine="E2-crashsim", level="fault_enumeration", ref="4 (C02), 2.3 (E2)", note=E2_NOTE,
+   technique="deterministic simulation with crash-fault enumeration (as C01) over histories with open, rolled-back, dropped and failed transactions; oracle: recovered contents = acknowledged commits (+ the one in-flight commit as a whole)",
+   text="Same enumeration as C01 with a workload mix in which transactions are open, rolled back, dropped or failed at the crash point; the recovered contents must equal the acknowledged state, or that state plus the single in-flight commit in full - nothing else, nothing partial."),
+ "C08": dict(engine="E2-crashsim", level="fault_enumeration", ref="4 (C08), 2.3 (E2)", note=E2_NOTE,
+   technique="deterministic simulation with nested crash-fault enumeration: every I/O prefix of a history is recovered; the recovery's own I/O is recorded and its prefixes recovered again (depth 2); smoke transaction and repeated open after each recovery",
+   text="For every crash point of every sampled history: open succeeds, the recovered database accepts a write-then-read transaction, closing and opening it again changes nothing, and recovery interrupted at each of its own I/O prefixes and restarted yields the same contents."),
+})
+
 NOT_APPLICABLE = {
  "C05": "pure function of (table contents, query text): no schedule, crash point, clock or interleaving enters it; needs differential/property-based testing, not simulation",
  "C18": "pure function of (stored bytes, schema, snapshot, horizon); the property asks for bounded exhaustive enumeration of a codec, not simulation",
@@ -59,6 +74,7 @@ def main():
             "add_only": True,
         },
         "engines": [
+            {"name": "E2-crashsim", "path": "/verif/sim/src/crashsim.rs", "serves_properties": [p for p, c in CHECKS.items() if c["engine"] == "E2-crashsim"], "kind_free_text": "E1 plus the I/O tap: every prefix of a history's file mutations is materialised as a disk image, opened with the real recovery and judged against the acknowledged model state; nested for recovery's own I/O"},
             {"name": "E1-sqlsim", "path": "/verif/sim/src/sqlsim.rs", "serves_properties": [p for p, c in CHECKS.items() if c["engine"] == "E1-sqlsim"], "kind_free_text": "whole-database history simulator: seeded event sequences over sessions / autocommit / batches / vacuum / checkpoint / reopen, reference SI model, result and state oracles"},
         ],
         "checks": checks,
